@@ -103,6 +103,10 @@ def c19_case(rec, root):
          "am": {"valid": "4.75", "edge": "0.001", "range": "0", "text": "xyz"},
          "k": {"valid": "0.25", "edge": "1", "range": "1.5", "text": "abc"},
          "km": {"valid": "0.35", "edge": "0", "range": "-0.1", "text": "k"}}
+    # non-numeric text: a word, or the spelling of "not a number" that a float parser accepts
+    if rec.get("case", 0) % 2:
+        V = {k: dict(v) for k, v in V.items()}
+        V["a"]["text"], V["am"]["text"], V["k"]["text"], V["km"]["text"] = "NaN", "nan", "NaN", "nan"
     meta = []
     legacy = c.get("legacy", False)
     if c["ameta"] != "absent":
@@ -144,9 +148,9 @@ def c19_case(rec, root):
     if c["kopt"] != "absent":
         argv += ["--kexp=" + V["k"][c["kopt"]]]
     if c["r1opt"] != "absent":
-        argv += ["--red1", "0.1", "1.1" if c["r1opt"] == "valid" else "x", "0.11"]
+        argv += ["--red1", "0.1", "1.1" if c["r1opt"] == "valid" else ("NaN" if rec.get("case", 0) % 2 else "x"), "0.11"]
     if c["r2opt"] != "absent":
-        argv += ["--red2", "0.15", "1.15" if c["r2opt"] == "valid" else "x", "0.115"]
+        argv += ["--red2", "0.15", "1.15" if c["r2opt"] == "valid" else ("x" if rec.get("case", 0) % 2 else "nan"), "0.115"]
     if c.get("verbose"):
         argv += ["-" + "v" * int(c["verbose"])]
     res = run_proc(argv, d)
@@ -218,7 +222,7 @@ def fault_cli_case(rec, root):
         argv = ["-c", "in.csv", "-l", "PENINSULA"] + rec["argv"]
     res = run_proc(argv, d)
     shutil.rmtree(d, ignore_errors=True)
-    return {"ev": "FaultCli", "case": rec["case"], "tag": "cli", "kind": kind, "argv": argv[4:] if kind == "option" else [],
+    return {"ev": "FaultCli", "case": rec["case"], "tag": "cli", "kind": kind, "base": rec.get("base", 0), "argv": argv[4:] if kind == "option" else [],
             "how": str(res["exit"]), "stderr_empty": res["stderr"].strip() == "",
             "stderr_head": res["stderr"].strip()[:80]}
 
